@@ -603,8 +603,12 @@ func (q *checker) bcheckAssignment(lhs *a.Expr, op t.ID, rhs *a.Expr) error {
 				if lTyp := rhs.LHS().AsExpr().MType(); lTyp.IsFuncType() && lTyp.Receiver().IsNumType() {
 					switch fn := lTyp.FuncName(); fn {
 					case t.IDMax, t.IDMin:
-						if err := q.bcheckAssignmentMaxMin(lhs, fn, rhs); err != nil {
-							return err
+						// As for "lhs == rhs" above: after "a[a[0]] = etc", the LHS
+						// expression may denote another element than the one stored to.
+						if !indexReadsBase {
+							if err := q.bcheckAssignmentMaxMin(lhs, fn, rhs, mentionsLHS); err != nil {
+								return err
+							}
 						}
 					}
 				}
@@ -786,7 +790,7 @@ func (q *checker) bcheckAssignment1(lhs *a.Expr, lTyp *a.TypeExpr, op t.ID, rhs 
 	return rb, nil
 }
 
-func (q *checker) bcheckAssignmentMaxMin(lhs *a.Expr, funcName t.ID, rhs *a.Expr) error {
+func (q *checker) bcheckAssignmentMaxMin(lhs *a.Expr, funcName t.ID, rhs *a.Expr, mentionsLHS func(*a.Expr) bool) error {
 	if len(rhs.Args()) != 1 {
 		return fmt.Errorf("check: internal error: max/min has unexpected arguments")
 	}
@@ -805,7 +809,10 @@ func (q *checker) bcheckAssignmentMaxMin(lhs *a.Expr, funcName t.ID, rhs *a.Expr
 		rhs.Args()[0].AsArg().Value(),
 	}
 	for _, operand := range operands {
-		if operand.Mentions(lhs) {
+		// The operand is evaluated before the assignment: the new fact holds
+		// afterwards only if the assignment cannot change the operand's value
+		// (mentionsLHS also covers other names for the assigned location).
+		if mentionsLHS(operand) {
 			continue
 		}
 		o := a.NewExpr(0, op, 0, lhs.AsNode(), nil, operand.AsNode(), nil)
